@@ -206,6 +206,17 @@ class C05Stop(Monitor):
         else:
             self.v("run() returned without consulting the global stop condition")
 
+    def on_run_raised(self, tree, exc):
+        # run() performs metaepochs until the stop condition holds; an exception out of the library's own stop-condition code is not that
+        tb = self.ctx.aborted[3] if self.ctx.aborted and len(self.ctx.aborted) > 3 else ""
+        if "/stop_conditions/" in tb[-900:]:
+            self.v(
+                f"run() raised from a global stop condition instead of running until it holds: {type(exc).__name__}: {str(exc)[:60]}",
+                second_tree_of_a_reuse_pair=self.ctx.prev is not None, gsc=self.ctx.desc.get("gsc"), traceback_tail=tb[-500:],
+            )
+        else:
+            self.cov("runs_that_raised_outside_the_stop_conditions")
+
     def on_init(self, deme, start, end):
         if self.T is not None and deme.level > 0:
             self._bad("a deme was sprouted after the global stop condition had been observed true", deme=deme.id, T=self.T)
